@@ -51,6 +51,10 @@ LEAVES = [
     ('link-title-braces', '[t](/u "{inner} {0} %s")', '<a href="/u" title="{inner} {0} %s">t</a>', 't'),
     ('link-title-3-lines', '[t](/u "a\nb\nc")', '<a href="/u" title="a\nb\nc">t</a>', None),
     ('rawhtml-3-lines', 'p <!-- a\nb\nc --> q', 'p <!-- a\nb\nc --> q', None),
+    # a pipe outside a table is plain text (a line with a pipe is only a table header if a delimiter row with the same
+    # number of cells follows; the contexts below never supply one)
+    ('pipe', 'a | b', 'a | b', 'a | b'),
+    ('code-pipe', '`a|b`', '<code>a|b</code>', 'a|b'),
 ]
 LINKISH = {'link-title-braces', 'link-title-3-lines', 'link', 'link<>', 'link"', "link'", 'link()', 'ref-full', 'ref-collapsed', 'ref-shortcut', 'autolink', 'automail'}
 BREAKS = {'hardbreak-spaces', 'hardbreak-backslash', 'softbreak', 'link-title-3-lines', 'rawhtml-3-lines'}
@@ -105,7 +109,8 @@ def wrap(ci, inner):
 
 
 # ---- block contexts: (name, markdown template, html template, allows line breaks)
-CONTEXT_NAMES = ['paragraph', 'atx heading', 'table cell', 'tight list item', 'block quote', 'table header cell', 'setext heading']
+CONTEXT_NAMES = ['paragraph', 'atx heading', 'table cell', 'tight list item', 'block quote', 'table header cell', 'setext heading',
+                 'setext heading level 2']
 
 
 def in_context(ci, node):
@@ -137,6 +142,8 @@ def in_context(ci, node):
         if node.brk and ('  \n' in md or '\\\n' in md):
             pass
         return 'w ' + md + '\n===' + REFDEFS, '<h1>w ' + html + '</h1>\n'
+    if ci == 7:
+        return 'w ' + md + '\n---' + REFDEFS, '<h2>w ' + html + '</h2>\n'
     raise KeyError(ci)
 
 
